@@ -387,8 +387,16 @@ const Quaternion<T,Unitary> eigen (const Quaternion<T,Hermitian>& q)
   }
   else
   {
-    T m = 1.0 / sqrt( 2.0*p*(p+q.s1) );
-    return Quaternion<T,Unitary> (m*(p+q.s1), 0.0, -m*q.s3, m*q.s2);
+    // p + q.s1, without cancellation or underflow when q.s1 < 0
+    T d = p + q.s1;
+    if (q.s1 < 0)
+    {
+      T r = p - q.s1;
+      d = q.s2*(q.s2/r) + q.s3*(q.s3/r);
+    }
+
+    T m = 1.0 / ( sqrt(2.0*p) * sqrt(d) );
+    return Quaternion<T,Unitary> (m*d, 0.0, -m*q.s3, m*q.s2);
   }
 }
 
